@@ -75,6 +75,8 @@ def lean_chars(s):
 
 
 def fld(name):
+    if name == "_":
+        return "py_underscore"
     if name in LEAN_KEYWORDS or name.startswith("tmp") or name.startswith("it_"):
         return "«py_%s»" % name
     return name
@@ -129,7 +131,7 @@ class FunctionTranslator:
         if isinstance(node, ast.Constant):
             return True                      # immutable
         if isinstance(node, ast.Call) and isinstance(node.func, ast.Name):
-            if node.func.id in ("list", "str", "int", "len") or node.func.id in self.m.functions:
+            if node.func.id in ("list", "str", "int", "len", "set", "sorted", "zip") or node.func.id in self.m.functions:
                 return True
             if self.m.numpy.get(node.func.id) in ("zeros", "array", "ones", "where", "argsort"):
                 return True
@@ -156,10 +158,18 @@ class FunctionTranslator:
                     elif isinstance(t, ast.Subscript):
                         raise Unsupported("%s: subscript assignment to a non-name" % self.name)
             if isinstance(node, ast.Expr) and isinstance(node.value, ast.Call) and \
-                    isinstance(node.value.func, ast.Attribute) and node.value.func.attr in ("insert", "append"):
-                if not isinstance(node.value.func.value, ast.Name):
+                    isinstance(node.value.func, ast.Attribute) and node.value.func.attr in ("insert", "append", "add"):
+                recv = node.value.func.value
+                if isinstance(recv, ast.Subscript) and isinstance(recv.value, ast.Name) and node.value.func.attr == "add":
+                    recv = recv.value          # x[i].add(v): x must own its items (fresh comprehension), checked below
+                    self.owning = getattr(self, "owning", set()) | {recv.id}
+                if not isinstance(recv, ast.Name):
                     raise Unsupported("%s: mutating method on a non-name" % self.name)
-                mutated.add(node.value.func.value.id)
+                mutated.add(recv.id)
+            if isinstance(node, ast.Delete):
+                for t in node.targets:
+                    if isinstance(t, ast.Subscript) and isinstance(t.value, ast.Name):
+                        mutated.add(t.value.id)
         for node in ast.walk(self.fn):
             if isinstance(node, ast.Assign):
                 pairs = []
@@ -184,6 +194,15 @@ class FunctionTranslator:
                 for sub in ast.walk(node.target):
                     if isinstance(sub, ast.Name) and sub.id in mutated:
                         raise Unsupported("%s: mutated local %s is a loop target" % (self.name, sub.id))
+        for nm in getattr(self, "owning", set()):
+            for node in ast.walk(self.fn):
+                if isinstance(node, ast.Assign):
+                    for t in node.targets:
+                        if isinstance(t, ast.Name) and t.id == nm:
+                            v = node.value
+                            if not (isinstance(v, ast.ListComp) and isinstance(v.elt, ast.Call) and isinstance(v.elt.func, ast.Name)
+                                    and v.elt.func.id in ("set", "list") and not v.elt.args):
+                                raise Unsupported("%s: items of %s are mutated but may be shared" % (self.name, nm))
         for p in self.params:
             if p in mutated:
                 # a parameter may be mutated only after being rebound to a fresh list, which the
@@ -387,6 +406,23 @@ class FunctionTranslator:
                 return self.apply(simple[nm][0], a, scope, assigned)
             if nm == "range" and 1 <= len(a) <= 3:
                 return self.apply("pyRange%d" % len(a), a, scope, assigned)
+            if nm == "set" and not a:
+                return True, "(.set [])"
+            if nm == "zip" and len(a) == 2:
+                return self.apply("pyZip", a, scope, assigned)
+            if nm == "sorted" and len(a) == 1:
+                return self.apply("pySorted", a, scope, assigned)
+            if nm == "filter" and len(a) == 2 and isinstance(a[0], ast.Lambda):
+                lam = a[0]
+                if len(lam.args.args) != 1 or lam.args.defaults or lam.args.vararg or lam.args.kwarg:
+                    raise Unsupported("%s: lambda shape" % self.name)
+                var = "it_%s" % lam.args.args[0].arg
+                inner = dict(scope)
+                inner[lam.args.args[0].arg] = var
+                body = self.cond(lam.body, inner, assigned)
+                return self.apply("pyFilter (fun %s => %s)" % (var, body), [a[1]], scope, assigned)
+            if nm in self.m.itertools and self.m.itertools[nm] == "product" and len(a) == 1 and isinstance(a[0], ast.Starred):
+                return self.apply("pyProduct", [a[0].value], scope, assigned)
             if nm == "map" and len(a) == 2:
                 return self.apply("pyMap %s" % self.callable_as_lambda(a[0], scope, assigned), [a[1]], scope, assigned)
             if nm in self.m.monitor_classes and not a:
@@ -666,7 +702,31 @@ class FunctionTranslator:
                 v = self.tmp()
                 body = "bnd %s fun %s =>\nlet e : Env := %s\n%s" % (t, v, self.assign_names([(nm, v)]), rest_fn(assigned))
                 return body, result_assigned["a"]
+            if isinstance(c.func, ast.Attribute) and c.func.attr == "add" and len(c.args) == 1 and not c.keywords:
+                tgt = c.func.value
+                if isinstance(tgt, ast.Name):
+                    _, t = self.apply("pySetAdd", [tgt, c.args[0]], {}, assigned)
+                    v = self.tmp()
+                    body = "bnd %s fun %s =>\nlet e : Env := %s\n%s" % (t, v, self.assign_names([(tgt.id, v)]), rest_fn(assigned))
+                    return body, result_assigned["a"]
+                if isinstance(tgt, ast.Subscript) and isinstance(tgt.value, ast.Name) and not isinstance(tgt.slice, (ast.Slice, ast.Tuple)):
+                    # x[i].add(v): the i-th item of the list x is a set owned by x alone (see _check_aliasing)
+                    _, t = self.apply("pySetAdd", [tgt, c.args[0]], {}, assigned)
+                    v = self.tmp()
+                    body = "bnd %s fun %s =>\n%s" % (t, v, self.store(tgt, v, assigned, rest_fn))
+                    return body, result_assigned["a"]
+            if isinstance(c.func, ast.Name) and c.func.id == "print":
+                return self.block(rest, assigned, in_loop)      # console output: not modelled (like the monitor)
             raise Unsupported("%s: expression statement" % self.name)
+        if isinstance(st, ast.Delete):
+            if len(st.targets) != 1 or not isinstance(st.targets[0], ast.Subscript) or \
+                    not isinstance(st.targets[0].value, ast.Name) or isinstance(st.targets[0].slice, (ast.Slice, ast.Tuple)):
+                raise Unsupported("%s: del shape" % self.name)
+            tgt = st.targets[0]
+            _, t = self.apply("pyDelItem", [tgt.value, tgt.slice], {}, assigned)
+            v = self.tmp()
+            body = "bnd %s fun %s =>\nlet e : Env := %s\n%s" % (t, v, self.assign_names([(tgt.value.id, v)]), rest_fn(assigned))
+            return body, result_assigned["a"]
         if isinstance(st, ast.If):
             c = self.cond(st.test, {}, assigned)
             ta, aa = self.block(st.body, assigned, in_loop)
@@ -741,6 +801,26 @@ class FunctionTranslator:
         return "\n".join(out)
 
 
+def _integral_default(fn, param, const):
+    """an integral float default (e.g. `heap_size=1e3`) is passed as the equal int, but only when the parameter is
+    used in the function exclusively as an operand of comparisons (where 1000.0 and 1000 behave alike)."""
+    if not isinstance(const.value, float):
+        return const
+    if const.value != int(const.value):
+        raise Unsupported("%s: non-integral float default" % fn.name)
+    uses = [n for n in ast.walk(fn) if isinstance(n, ast.Name) and n.id == param and isinstance(n.ctx, ast.Load)]
+    in_cmp = set()
+    for c in ast.walk(fn):
+        if isinstance(c, ast.Compare) and all(type(o) in CMPOPS for o in c.ops):
+            for operand in [c.left] + list(c.comparators):
+                if isinstance(operand, ast.Name) and operand.id == param:
+                    in_cmp.add(id(operand))
+    if any(id(u) not in in_cmp for u in uses) or any(
+            isinstance(n, ast.Name) and n.id == param and isinstance(n.ctx, ast.Store) for n in ast.walk(fn)):
+        raise Unsupported("%s: float default of %s is used outside comparisons" % (fn.name, param))
+    return ast.copy_location(ast.Constant(value=int(const.value)), const)
+
+
 def _as_load(target):
     t = ast.parse(ast.unparse(target), mode="eval").body
     return t
@@ -784,10 +864,14 @@ class ModuleTranslator:
         self.wanted = wanted
         self.monitor_classes = {n.name for n in self.tree.body if isinstance(n, ast.ClassDef)}
         self.numpy = {}              # local name -> NumPy name
+        self.itertools = {}          # local name -> itertools name
         self.lean_imports = []
         imported = imported or {}
         for node in self.tree.body:
-            if isinstance(node, ast.ImportFrom) and node.module == "numpy":
+            if isinstance(node, ast.ImportFrom) and node.module == "itertools":
+                for al in node.names:
+                    self.itertools[al.asname or al.name] = al.name
+            elif isinstance(node, ast.ImportFrom) and node.module == "numpy":
                 for al in node.names:
                     self.numpy[al.asname or al.name] = al.name
             elif isinstance(node, ast.ImportFrom) and node.module and node.module.startswith("dsw."):
@@ -850,7 +934,7 @@ class ModuleTranslator:
                 d = defaults[i - first_default]
                 if not isinstance(d, ast.Constant):
                     raise Unsupported("%s: non-constant default" % callee.name)
-                slots[i] = d
+                slots[i] = _integral_default(callee, params[i], d)
         return slots
 
     def _dependency_order(self):
